@@ -5,7 +5,9 @@ ROOT = os.path.dirname(os.path.dirname(os.path.abspath(__file__)))
 rows = []
 for d in sorted(glob.glob(os.path.join(ROOT, "seeded-harmless", "*"))):
     m = json.load(open(os.path.join(d, "meta.json")))
-    rows.append((os.path.basename(d), (m.get("summary") or "")[:220].replace("\n", " ").replace("|", "\\|"), m.get("check_outcome", "")))
+    r = m.get("regression") or {}
+    again = ("not applicable to the final head (lines rewritten by repairs)" if r and not r.get("applies") else "silent" if r and not r.get("detected") else "reported without failing input" if r else "")
+    rows.append((os.path.basename(d), (m.get("summary") or "")[:220].replace("\n", " ").replace("|", "\\|"), m.get("check_outcome", ""), again))
 silent = sum(1 for r in rows if r[2].startswith("silent"))
 props = sorted({r[0][:3] for r in rows})
 txt = ["### 11.6 Behaviour-preserving changes (false-alarm test)", "",
@@ -20,8 +22,8 @@ txt = ["### 11.6 Behaviour-preserving changes (false-alarm test)", "",
        "C15 used to go on with empty tables when they could not find one, and the comparison then reported thousands of bogus \"failing",
        "inputs\"; a missing table now stops the run as a harness failure (violation without failing input), and `check` no longer crashes when a",
        "regenerated file is missing.", "",
-       "| patch | refactoring | outcome of the check |", "|---|---|---|"]
+       "| patch | refactoring | outcome of the check when written | on the final heads |", "|---|---|---|---|"]
 for r in rows:
-    txt.append("| %s | %s | %s |" % r)
+    txt.append("| %s | %s | %s | %s |" % r)
 open(os.path.join(ROOT, "docs", "harmless.md"), "w").write("\n".join(txt) + "\n")
 print(len(rows), "harmless patches,", silent, "silent")
